@@ -12,6 +12,12 @@ static TableSpec catalogue(int id) {
 	TableSpec s; Rng rng(1000 + id);
 	static const int dims[] = {1, 1, 2, 2, 3, 4, 5, 2};
 	static const int target[] = {4, 400, 30, 2500, 700, 1500, 3000, 200000};
+	if (id == 16) {   // 40 x 359 coefficients, orders 2 and 3: the second knot vector ends three entries into its last block
+		s.ndim = 2; s.order = {2, 3}; const int nax[2] = {40, 359};
+		for (int d = 0; d < 2; d++) { std::vector<double> k; double v = -1; for (int j = 0; j < nax[d] + (int)s.order[d] + 1; j++) { k.push_back(v); v += 0.5 + rng.unit(); } s.knots.push_back(k); }
+		s.coeffs.resize(s.ncoeffs()); for (auto& c : s.coeffs) c = (float)rng.range(-4, 4);
+		return s;
+	}
 	int n = dims[id % 8]; s.ndim = n; double per = std::pow((double)target[id % 8], 1.0 / n);
 	for (int d = 0; d < n; d++) { int ord = (d + id) % 4; int nax = std::max(ord + 1, (int)per + d); std::vector<double> k; double v = -1; for (int j = 0; j < nax + ord + 1; j++) { k.push_back(v); v += 0.5 + rng.unit(); } s.order.push_back(ord); s.knots.push_back(k); }
 	s.coeffs.resize(s.ncoeffs()); for (auto& c : s.coeffs) c = (float)rng.range(-4, 4);
@@ -22,6 +28,9 @@ int main(int argc, char** argv) {
 	signal(SIGXFSZ, SIG_IGN);
 	if (getenv("VERIF_FSIZE")) { struct rlimit rl; rl.rlim_cur = rl.rlim_max = (rlim_t)atol(getenv("VERIF_FSIZE")); setrlimit(RLIMIT_FSIZE, &rl); }
 	Table t; PVA::build(t, catalogue(id), PAD_ZERO); t.write_key("TABLEID", id);
+	// ids 8..15: the same shapes with 48 more keys - the primary header no longer fits the block reserved for it when the image
+	// was created, so the writer has to move the data it has already written
+	if (id >= 8) for (int k = 0; k < 48; k++) t.write_key((k % 3 ? "KEY" + std::to_string(100 + k) : "ALONGERKEYWORD" + std::to_string(100 + k)).c_str(), ("value number " + std::to_string(k)).c_str());
 	if (mode == "write") {
 		bool ok = true; std::string what;
 		if (argc > 4 && std::string(argv[4]) == "c") { ::splinetable ct; ct.data = &t; ok = writesplinefitstable(path.c_str(), &ct) == 0; }
